@@ -1093,6 +1093,11 @@ class Engine:
                     if i in starred:
                         items = self.static_items(v)
                         if items is None:
+                            if self.contract.opts.get('star_in_display_to_ghost'):
+                                # the display goes straight to a ghost callee, which sees the spliced sequence as
+                                # one marked element (the contract opts in and must not let the list be used otherwise)
+                                flat.append(V('star', extra={'seq': v}))
+                                continue
                             raise Unsupported(e, 'starred element of symbolic length in a list display')
                         flat.extend(items)
                     else:
